@@ -72,7 +72,7 @@ func regU[T any](name string, recv [3]int) *uEntry {
 var mPositions = []string{
 	"top-val", "top-ptr", "field-val", "field-ptr", "slice", "array-val", "array-ptr",
 	"map-key", "map-val", "iface-val", "iface-ptr", "iface-named", "ptr", "slice2",
-	"nil-ptr", "top-nil", "iface-nilptr", "any-str", "mapany-str",
+	"nil-ptr", "top-nil", "iface-nilptr", "any-str", "mapany-str", "imap-val",
 }
 
 func buildM[T any](pos string) any {
@@ -119,6 +119,8 @@ func buildM[T any](pos string) any {
 		return []any{"s"}
 	case "mapany-str":
 		return map[string]any{"k": "s"}
+	case "imap-val":
+		return map[int]T{1: t1, 2: t2}
 	}
 	panic("harness: unknown marshal position " + pos)
 }
